@@ -205,7 +205,7 @@ def common(rng, g, cfg, a, allow_freq=True):
     if e is not None:
         a['end'] = e
     if rng.random() < cfg.get('p_wacc', 0.3):
-        a['wacc'] = rng.choice([0.05, 0.1, 0.5])
+        a['wacc'] = rng.choice(cfg.get('waccs', [0.05, 0.1, 0.5]))
     if allow_freq:
         f = coarse_freq(rng, g, cfg)
         if f is not None and cfg.get('coarse_windows') and rng.random() < 0.5:
